@@ -6,7 +6,7 @@ from ..rng import Rng, derive
 from .base import Prop, verdict, bump, event_kinds, ngrams
 
 KINDS = ['timelimit', 'maxiter', 'singular', 'linesearch']
-BACKUPS = ['none', 'rescues', 'fails']
+BACKUPS = ['none', 'rescues', 'fails', 'fsolve']     # fsolve: scipy.optimize.fsolve as the (documented) backup solver, run for real
 
 
 def plan_for(fr):
@@ -19,7 +19,10 @@ def plan_for(fr):
 def scn_for(scn, fr):
     s = world.clone(scn)
     s['run']['convergence_error'] = bool(fr['ce'])
-    s['run']['backup'] = None if fr['backup'] == 'none' else {'options': {'MAXITER': 500}}
+    if fr['backup'] == 'fsolve':
+        s['run']['backup'] = {'solver': 'fsolve', 'options': {}}
+    else:
+        s['run']['backup'] = None if fr['backup'] == 'none' else {'options': {'MAXITER': 500}}
     return s
 
 
